@@ -24,6 +24,7 @@ SCHEMA = f'''<xs:schema {XS} targetNamespace="urn:t" xmlns:t="urn:t" elementForm
       <xs:element name="tries" minOccurs="0" default="3"><xs:complexType><xs:simpleContent><xs:extension base="xs:int"><xs:attribute name="u" type="xs:token"/></xs:extension></xs:simpleContent></xs:complexType></xs:element>
       <xs:element name="vals" minOccurs="0"><xs:complexType><xs:simpleContent><xs:extension base="t:ints"><xs:attribute name="unit" type="xs:token"/></xs:extension></xs:simpleContent></xs:complexType></xs:element>
       <xs:element name="mix" minOccurs="0"><xs:complexType mixed="true"><xs:sequence><xs:element name="b" type="xs:string" minOccurs="0" maxOccurs="unbounded"/></xs:sequence></xs:complexType></xs:element>
+      <xs:element name="end" type="xs:token"/>
      </xs:sequence><xs:attribute name="id" type="xs:ID" use="required"/><xs:attribute name="w" type="xs:double"/></xs:complexType></xs:element>
   </xs:sequence></xs:complexType></xs:element></xs:schema>'''
 NS = {'t': 'urn:t'}
@@ -46,6 +47,7 @@ def gen(rng):
         if rng.random() < .4: parts.append(f'<t:tries u="n">{rng.choice(["0", "5"])}</t:tries>')
         if rng.random() < .5: parts.append(rng.choice(['<t:vals>1 2</t:vals>', '<t:vals unit="m">3 4 5</t:vals>', '<t:vals>7</t:vals>']))      # list-valued simple content, with and without its attribute
         if rng.random() < .4: parts.append(f'<t:mix>{rng.choice(["", "x"])}<t:b>y</t:b>{rng.choice(["", "z"])}<t:b>w</t:b></t:mix>')
+        parts.append('<t:end>e</t:end>')        # a required particle after the optional ones: data truncated before an optional particle is incomplete
         w = rng.choice(['', ' w="1.5"', ' w="INF"', ' w="1e3"'])
         items.append(f'<t:item id="i{i}"{w}>' + ''.join(parts) + '</t:item>')
     return '<t:r xmlns:t="urn:t">' + ''.join(items) + '</t:r>'
@@ -73,8 +75,11 @@ def mutate(rng, d):
     ds = [x for x in dicts(d, []) if any(not k.startswith('@xmlns') for k in x)]
     if not ds: return d
     x = rng.choice(ds); keys = [k for k in x if not k.startswith('@xmlns')]
-    k = rng.choice(keys); op = rng.choice(['drop', 'dup', 'retype', 'reorder', 'rename'])
+    k = rng.choice(keys); op = rng.choice(['drop', 'dup', 'retype', 'reorder', 'rename', 'truncate'])
     if op == 'drop': del x[k]
+    elif op == 'truncate':          # keep only a prefix of the child entries (attributes stay)
+        kids = [c for c in keys if not c.startswith('@')]
+        for c in kids[rng.randrange(len(kids)):] if kids else []: del x[c]
     elif op == 'dup': x[k] = [x[k], copy.deepcopy(x[k])] if not isinstance(x[k], list) else x[k] + x[k][:1]
     elif op == 'retype': x[k] = rng.choice(['zz', -5, 1.5, True, None, [1, 'a'], {'$': 'q'}])
     elif op == 'reorder':
